@@ -219,6 +219,10 @@ class ImplWorld:
 def impl(case):
     if case[0] == 30:
         return 1
+    if _HANGS[0] >= 5:
+        # the implementation loops on ordinary histories: the first ones are reported with their
+        # replay files, running thousands more would only burn the time budget
+        return Err(-2, "hang (not re-run after repeated hangs)")
     w = ImplWorld()
     return [w.step(op) for op in case[1:]]
 
